@@ -559,7 +559,7 @@ char * clean_string(const char * str, bool lowercase, bool url_clean) {
 
 			default:
 				if (lowercase) {
-					d_string_append_c(out, tolower(*str));
+					d_string_append_c(out, tolower((unsigned char) *str));
 				} else {
 					d_string_append_c(out, *str);
 				}
